@@ -3,6 +3,7 @@ package main
 // C20 — HTTP gateway admits only configured origins; API reports exact values (structure).
 
 import (
+	"os"
 	"fmt"
 	"go/token"
 	"go/types"
@@ -279,7 +280,9 @@ func checkC20(c *Ctx) Meta {
 				cond = strip(cond)
 				switch x := cond.(type) {
 				case *ssa.UnOp:
-					if freeVarName(x) == "allowAllIP" {
+					// the wildcard flag: a boolean captured variable (or, where the closure became an object,
+					// a boolean field of that object) — where it can become true is judged below
+					if n := freeVarName(x); n != "" && x.Op == token.MUL && types.Identical(x.Type().Underlying(), types.Typ[types.Bool]) {
 						return "wildcard"
 					}
 				case *ssa.BinOp:
@@ -355,7 +358,8 @@ func checkC20(c *Ctx) Meta {
 			}
 			// where the lists come from
 			okLists := true
-			allInstrs(gf, func(in ssa.Instruction) {
+			foundOnly := true
+			allInstrsNew(gf, func(in ssa.Instruction) {
 				cl, ok := in.(*ssa.Call)
 				if !ok || calleeID(cl) != "builtin.append" {
 					return
@@ -366,35 +370,80 @@ func checkC20(c *Ctx) Meta {
 					if !s.hasGlobal(pkgAPI, "lanRules") || !s.hasParam(gf, "lanPrefix") {
 						okLists = false
 					}
+					// only a rule that was found is added: the append lies behind the `ok` of the table lookup
+					// (an unknown prefix would add the zero network, which contains the nil IP that
+					// ResolveTCPAddr yields for an address without host part)
+					if !behindLookupOK(cl) {
+						okLists = false
+						foundOnly = false
+					}
 				} else if strings.Contains(t, "net.IP") {
 					if !s.hasCallTo("net.ParseIP") || !s.hasParam(gf, "whitelist") {
 						okLists = false
 					}
 				}
 			})
-			wild := false
-			allInstrs(gf, func(in ssa.Instruction) {
-				if st, ok := in.(*ssa.Store); ok {
-					a, isAlloc := st.Addr.(*ssa.Alloc)
-					if (isAlloc && a.Comment == "allowAllIP") || (!isAlloc && freeVarName(st.Addr) == "allowAllIP") {
-						if s, ok := constString(st.Val); ok && s == "true" {
-							// behind addr == "*"
-							for _, t := range cmpTests(gf, func(bo *ssa.BinOp) bool {
-								s, ok := constString(bo.Y)
-								return bo.Op == token.EQL && ok && s == "*"
-							}) {
-								if t.TrueSucc.Dominates(st.Block()) {
-									wild = true
+			// the wildcard is switched on only by the "*" entry: every store of the constant true into a
+			// boolean cell (local, captured variable, field of a new object) in the constructor's body is
+			// dominated by the true edge of a comparison with "*", and there is one
+			wild, wildBad := false, false
+			for _, g := range bodyFns(gf, nil) {
+				if g == fn {
+					continue
+				}
+				g := g
+				allInstrsShallow(g, func(in ssa.Instruction) {
+					// where a boolean becomes the constant true: a store, or (for a local kept in a register)
+					// the edge of a phi
+					var at []*ssa.BasicBlock
+					switch x := in.(type) {
+					case *ssa.Store:
+						if s, ok := constString(x.Val); ok && s == "true" {
+							at = append(at, x.Block())
+						}
+					case *ssa.Phi:
+						if types.Identical(x.Type().Underlying(), types.Typ[types.Bool]) {
+							for i, e := range x.Edges {
+								if s, ok := constString(e); ok && s == "true" {
+									at = append(at, x.Block().Preds[i])
 								}
 							}
 						}
 					}
-				}
-			})
+					if len(at) == 0 {
+						return
+					}
+					st := in
+					guarded := true
+					for _, blk := range at {
+						gd := false
+						for _, t := range cmpTests(g, func(bo *ssa.BinOp) bool {
+							s, ok := constString(bo.Y)
+							return bo.Op == token.EQL && ok && s == "*"
+						}) {
+							if t.TrueSucc == blk || t.TrueSucc.Dominates(blk) {
+								gd = true
+							}
+						}
+						if !gd {
+							guarded = false
+						}
+					}
+					if guarded {
+						wild = true
+					} else {
+						wildBad = true
+					}
+					if os.Getenv("VERIF_DEBUG") != "" {
+						fmt.Printf("DEBUG wildcard store in %s at %s guarded=%v\n", g.Name(), c.Pos(st.Pos()), guarded)
+					}
+				})
+			}
+			wild = wild && !wildBad
 			if okLists && wild {
 				c.OK("C20-ALLOW", "decision:lists-from-configuration", c.Pos(gf.Pos()), "whitelist entries come from ParseIP(whitelist[i]), LAN rules from lanRules[lanPrefix[i]], wildcard only from \"*\"")
 			} else {
-				c.Bad("C20-ALLOW", "decision:lists-from-configuration", c.Pos(gf.Pos()), fmt.Sprintf("the allow lists are not built only from the configuration (lists=%v wildcard-only-from-star=%v)", okLists, wild))
+				c.Bad("C20-ALLOW", "decision:lists-from-configuration", c.Pos(gf.Pos()), fmt.Sprintf("the allow lists are not built only from the configuration (lists=%v wildcard-only-from-star=%v only-known-lan-prefixes-added=%v)", okLists, wild, foundOnly))
 			}
 		}
 	}
@@ -801,4 +850,78 @@ func isProfileServer(c *Ctx, fn *ssa.Function, in ssa.Instruction) bool {
 		c.Note("exception: %s starts the opt-in profiling server on http.DefaultServeMux (pprof + a redirect only; verified that no repository code registers another handler on the default mux) — it is not the API gateway", FuncName(fn))
 	}
 	return okMux
+}
+
+
+// behindLookupOK: the value appended by ap comes from a comma-ok map lookup (directly, or through a
+// helper the reference tree does not have that hands the pair back), and ap is unreachable unless that
+// `ok` was true.
+func behindLookupOK(ap *ssa.Call) bool {
+	g := ap.Parent()
+	var okVal ssa.Value
+	consider := func(r ssa.Value) {
+		ex, isE := r.(*ssa.Extract)
+		if !isE || ex.Index != 0 {
+			return
+		}
+		switch t := ex.Tuple.(type) {
+		case *ssa.Lookup:
+			if t.CommaOk {
+				okVal = siblingExtract(t, 1)
+			}
+		case *ssa.Call:
+			h := t.Call.StaticCallee()
+			if h == nil || !gNewFuncs[h] || h.Signature.Results().Len() != 2 {
+				return
+			}
+			// the helper's second result is the lookup's ok (or false)
+			faithful := len(returnsOf(h)) > 0
+			for _, ret := range returnsOf(h) {
+				good := false
+				valueOrigins(h, ret.Results[1], func(r2 ssa.Value) {
+					if e2, isE2 := r2.(*ssa.Extract); isE2 && e2.Index == 1 {
+						if lk, isL := e2.Tuple.(*ssa.Lookup); isL && lk.CommaOk {
+							good = true
+						}
+					}
+					if k, isK := r2.(*ssa.Const); isK && k.Value != nil && k.Value.String() == "false" {
+						good = true
+					}
+				})
+				if !good {
+					faithful = false
+				}
+			}
+			if faithful {
+				okVal = siblingExtract(t, 1)
+			}
+		}
+	}
+	// the appended element (through the variadic argument slice)
+	for v := range backSlice(ap.Call.Args[1]).vals {
+		if ex, isE := v.(*ssa.Extract); isE && ex.Parent() == g {
+			consider(ex)
+		}
+	}
+	if okVal == nil {
+		return false
+	}
+	tests := boolTestsOf(g, okVal)
+	if len(tests) == 0 {
+		return false
+	}
+	u, _ := unreachableWhenCut(g, boolEdgeCut(tests, true), []ssa.Instruction{ap})
+	return u
+}
+
+// siblingExtract: the Extract of component idx of the same tuple.
+func siblingExtract(tuple ssa.Value, idx int) ssa.Value {
+	if refs := tuple.Referrers(); refs != nil {
+		for _, r := range *refs {
+			if ex, ok := r.(*ssa.Extract); ok && ex.Index == idx {
+				return ex
+			}
+		}
+	}
+	return nil
 }
